@@ -6,6 +6,7 @@ CONSTANTS
   ForgetCloseOnFault = FALSE
   StaleLengthOnRenderFault = FALSE
   StatusStringAsIs = TRUE
+  ReturnOnDisconnect = FALSE
   Tier = "tiny"
   Ifaces = {"wsgi", "asgi"}
   Codes = {200, 204}
